@@ -3,7 +3,7 @@ CONSTANTS
   ShiftStyle = "halo" LevelStyle = "cursor" TruncStyle = "sym" AnalyticStyle = "flat" BCubic = "minus"
   Sizes = {302, 402}
   Cells = {23}
-  Halos = {0}
+  Halos = {0, 1, 3}
   ModeSet = {202, 402, 1212}
   NZs = {3}
   LevelLists = "single"
